@@ -22,6 +22,38 @@ int main_replay(){
   return 0;
 }
 '''
+REPLAY_SPLIT = r'''
+/* On the real library (AddressSanitizer): an output sub-range copy of a grid of each family, taken before and after the values are loaded;
+ * the copy must expect / hold one value per point for each of its outputs, and after loading it must reproduce its outputs. */
+int main_replay(){
+  using namespace TasGrid;
+  int bad = 0;
+  const char *names[5] = {"Global", "Sequence", "LocalPolynomial", "Wavelet", "Fourier"};
+  for (int fam = 0; fam < 5; fam++) for (int loaded = 0; loaded < 2; loaded++) {
+    TasmanianSparseGrid g = fam == 0 ? makeGlobalGrid(2, 3, 2, type_level, rule_clenshawcurtis) : fam == 1 ? makeSequenceGrid(2, 3, 2, type_level, rule_leja)
+                          : fam == 2 ? makeLocalPolynomialGrid(2, 3, 2, 1, rule_localp) : fam == 3 ? makeWaveletGrid(2, 3, 1, 1) : makeFourierGrid(2, 3, 1, type_level);
+    auto f = [](double a, double b, int k)->double{ return std::exp(a + 0.5 * b) * (k + 1) + k; };
+    std::vector<double> p = g.getNeededPoints(); int n = g.getNumNeeded();
+    if (loaded) { std::vector<double> v(3 * n); for (int i = 0; i < n; i++) for (int k = 0; k < 3; k++) v[3*i+k] = f(p[2*i], p[2*i+1], k); g.loadNeededValues(v); }
+    TasmanianSparseGrid h; h.copyGrid(&g, 1, 3);
+    if (!loaded) { std::vector<double> v(2 * n); for (int i = 0; i < n; i++) for (int k = 0; k < 2; k++) v[2*i+k] = f(p[2*i], p[2*i+1], k + 1); h.loadNeededValues(v); }
+    int miss = 0;
+    if (h.getNumOutputs() != 2 || h.getNumLoaded() != n || h.getLoadedValues() == nullptr) miss = n + 1;
+    else { const double *v = h.getLoadedValues(); std::vector<double> q = h.getLoadedPoints();
+      for (int i = 0; i < n; i++) { double y[2]; h.evaluate(&q[2*i], y);
+        for (int k = 0; k < 2; k++) if (!(std::abs(v[2*i+k] - f(q[2*i], q[2*i+1], k + 1)) < 1.E-12 && std::abs(y[k] - v[2*i+k]) < 1.E-9)) { miss++; break; } } }
+    if (miss) { std::printf("%s, copy taken %s loading: %d outputs, %d loaded points, %d of %d points do not hold / reproduce the copied outputs\n", names[fam], loaded ? "after" : "before", h.getNumOutputs(), h.getNumLoaded(), miss, n); bad++; }
+  }
+  __CPROVER_assert(bad == 0, "C11 an output sub-range copy is a working grid with one value per point and output");
+  return 0;
+}
+'''
+def replay_split(prop):
+    def rp(job, ob, vals, wd):
+        hdr = "Replay against the real library (fixed scenarios).\nproperty %s job %s\nobligation %s: %s\nat %s" % (prop, job.name, ob["name"], ob["description"], ob["location"])
+        return RP.write_and_run(prop, job.name + "." + ob["name"], hdr, ['"TasmanianSparseGrid.hpp"', '<cmath>'], REPLAY_SPLIT, "  main_replay();", lib="sg", flags=["-fsanitize=address", "-O1"], timeout=180)
+    return rp
+
 def replay_alias(prop):
     def rp(job, ob, vals, wd):
         hdr = "Replay against the real library.\nproperty %s job %s\nobligation %s: %s\nat %s\ncounterexample: source aliases the destination" % (prop, job.name, ob["name"], ob["description"], ob["location"])
@@ -67,7 +99,8 @@ def emit_split_wrappers(R):
     c = q.body
     c = R.sub("R12g-brace-return", r'return\s*\{\s*([^,]+),\s*([^,]+),\s*spltVector2D\(\s*values\s*,\s*num_outputs\s*,\s*ibegin\s*,\s*iend\s*\)\s*\}\s*;',
               r'return ss_make(\1, \2, gm_split(self->values, self->num_outputs, ibegin, iend));', c)
-    for mname in ("num_values",):
+    c = R.sub("R12g-vector-size", r'(?<![\w.>])values\.size\(\)', 'self->values_size', c)
+    for mname in ("num_values", "num_outputs"):
         c = R.sub("R10-member", r'(?<![\w.>])%s\b' % mname, 'self->' + mname, c)
     X.check_leftover(c, "StorageSet::splitValues")
     t2 = '#line %d "%s"\nSS StorageSet_splitValues(const SS *self, int ibegin, int iend)%s\n' % (q.line, X.REPO + "/" + q.rel, c)
@@ -77,16 +110,16 @@ def emit_split_wrappers(R):
 
 SPLITW = r'''
 typedef struct { size_t stride, num_strips; int vec; } D2;
-typedef struct { size_t num_outputs, num_values; int values; } SS;
+typedef struct { size_t num_outputs, num_values; int values; size_t values_size; } SS;      /* values_size: values.size(), 0 while no values are loaded, else num_outputs * num_values */
 static D2 d2_empty(void){ D2 d = {0, 0, 0}; return d; }
 static D2 d2_make(int stride, int strips){ D2 d = {(size_t) stride, (size_t) strips, 0}; return d; }
-static SS ss_make(int outs, int nvals, int vals){ SS s = {(size_t) outs, (size_t) nvals, vals}; return s; }
+static SS ss_make(int outs, int nvals, int vals){ SS s = {(size_t) outs, (size_t) nvals, vals, 0}; return s; }
 static int gm_split(int vec, size_t stride, int b, int e){ return 100000 + vec; }     /* identity of spltVector2D(vec, stride, b, e) (proved in copy.spltVector2D) */
 '''
 SPLITH = r'''
 void h_splitw(void){
   D2 d; SS s; int a_b = nondet_int(), a_e = nondet_int();
-  d.stride = nondet_size_t(); d.num_strips = nondet_size_t(); d.vec = nondet_int(); s.num_outputs = nondet_size_t(); s.num_values = nondet_size_t(); s.values = nondet_int();
+  d.stride = nondet_size_t(); d.num_strips = nondet_size_t(); d.vec = nondet_int(); s.num_outputs = nondet_size_t(); s.num_values = nondet_size_t(); s.values = nondet_int(); s.values_size = nondet_bool() ? 0 : s.num_outputs * s.num_values;
   __CPROVER_assume(d.stride <= 100 && d.num_strips <= 1000 && s.num_outputs >= 1 && s.num_outputs <= 100 && s.num_values <= 1000 && 0 <= a_b && a_b <= a_e && a_e <= 100 && d.vec > 0 && d.vec < 1000 && s.values > 0 && s.values < 1000);
   D2 r = Data2D_splitData(&d, a_b, a_e);
   if (d.stride == 0) __CPROVER_assert(r.num_strips == 0 && r.stride == 0, "A7 splitting an empty Data2D gives an empty object");
@@ -106,7 +139,7 @@ def jobs(tier, seed, prop):
     Rw = X.Rules()
     wt_, winfo_ = emit_split_wrappers(Rw)
     out.append(Job("copy.splitData", '#include "tsg_shim.h"\nint tsg_exc;\n' + SPLITW + wt_ + SPLITH, "h_splitw", timeout=120,
-                   functions=["%s:%d %s" % (f["file"], f["line"], f["name"]) for f in winfo_["functions"]], info=winfo_,
+                   functions=["%s:%d %s" % (f["file"], f["line"], f["name"]) for f in winfo_["functions"]], info=winfo_, replay=replay_split(prop),
                    label="Data2D::splitData / StorageSet::splitValues keep the strip count and hold the split vector (A7)"))
     R = X.Rules()
     enums = "".join(tables.cut_enum(n, R)[0] for n in ("TypeOneDRule", "TypeDepth", "TypeRefinement"))
